@@ -344,7 +344,10 @@ def handleIncrByFloat (_c : Ctx) (cmd : List Bytes) : Prog Res :=
       | _ => .ret (.err (b "unexpected type for currentValue"))
   | _ => .ret (.err wrongArgs)
 
-/-- :649 handleRename -/
+/-- :649 handleRename. The value moves with its own deadline (repaired in /repo by a `fix:` commit; before it
+    SetValues' "an overwritten entry keeps its deadline" gave the moved value the destination's deadline and
+    the source's was dropped): both deadlines are read, the value is written, and SetExpiry is issued on the
+    destination exactly when the deadline SetValues left there differs from the source's. -/
 def handleRename (_c : Ctx) (cmd : List Bytes) : Prog Res :=
   match cmd with
   | [_, oldKey, newKey] =>
@@ -352,7 +355,11 @@ def handleRename (_c : Ctx) (cmd : List Bytes) : Prog Res :=
     match vs.headD .nil with
     | .nil => .ret (.err (b "no such key"))
     | v => if oldKey == newKey then .ret (.ok okReply) else
-           setOrErr [(newKey, v)] (.call (.deleteKey oldKey) fun _ => .ret (.ok okReply))
+           .call (.getExpiry oldKey) fun (e : Option Int) =>
+           .call (.getExpiry newKey) fun (eNew : Option Int) =>
+           setOrErr [(newKey, v)] <|
+             let fin : Prog Res := .call (.deleteKey oldKey) fun _ => .ret (.ok okReply)
+             if e != eNew then .call (.setExpiry newKey e false) fun _ => fin else fin
   | _ => .ret (.err wrongArgs)
 
 /-- :678 handleFlush (FLUSHALL / FLUSHDB) -/
